@@ -30,17 +30,20 @@ META = {
 }
 
 
-def tlc_welltyped(chk, progs, name):
+def tlc_welltyped(chk, progs, name, chunk=1500):
     d = vlib.scratch("types")
-    path = os.path.join(d, "t.ndjson")
-    vlib.write_ndjson(path, [typed.typed(p) for p in progs])
-    r = vlib.tlc("AldorTypes", "AldorTypes", workers=vlib.NCPU, env={"PROGS": path}, timeout=1500)
-    chk.add_tlc("AldorTypes[%s]" % name, r)
     out = {}
-    for l in r.printed:
-        if isinstance(l, str) and l.startswith("TYPED "):
-            x = json.loads(l[6:])
-            out[x["id"]] = x["ok"]
+    # one TLC run per chunk of programs: the time of a run grows with the size of the deserialised input
+    for k in range(0, len(progs), chunk):
+        part = progs[k:k + chunk]
+        path = os.path.join(d, "t%d.ndjson" % k)
+        vlib.write_ndjson(path, [typed.typed(p) for p in part])
+        r = vlib.tlc("AldorTypes", "AldorTypes", workers=vlib.NCPU, env={"PROGS": path}, timeout=2400)
+        chk.add_tlc("AldorTypes[%s%s]" % (name, "" if len(progs) <= chunk else "/%d" % (k // chunk)), r)
+        for l in r.printed:
+            if isinstance(l, str) and l.startswith("TYPED "):
+                x = json.loads(l[6:])
+                out[x["id"]] = x["ok"]
     missing = [p["id"] for p in progs if p["id"] not in out]
     if missing:
         raise vlib.MachineryError("AldorTypes gave no verdict for %d programs (e.g. %s)" % (len(missing), missing[0]))
